@@ -92,6 +92,109 @@ def gen(rng):
             "exported_script_tags": sorted(set(tags) | ({"deva"} if "dev2" in tags else set()))}
 
 
+def lookup_refs_section(ctx):
+    """featureWriters/ast.addLookupReferences against Fea/LookupRefs.v: (1) the statements it appends, exactly; (2) the Gallina
+    reading of such statements (`read`: which language system ends up with which lookups) against what feaLib compiles from
+    them -- a GPOS table built from the very statements, read back per language system"""
+    import random
+    from fontTools.feaLib import ast
+    from fontTools.feaLib.builder import addOpenTypeFeatures
+    from fontTools.ttLib import TTFont
+    from ufo2ft.featureWriters.ast import addLookupReferences
+    rng = ctx.subrng("lookup-refs")
+    LANGS = ["dflt", "TRK ", "AZE ", "ROM ", "dflt", "NLD "]
+    cases, meta = [], []
+    for i in range(ctx.budget(60, 400)):
+        nl = 1 + i % 3
+        names = ["L%d" % k for k in range(nl)]
+        script = [None, "latn", "cyrl", "latn"][i % 4]
+        langs = None
+        if i % 5:
+            langs = [LANGS[(i + k * 7) % len(LANGS)] for k in range((i // 5) % 4)]
+            if i % 7 == 3:
+                langs = [l for l in langs if l != "dflt"] + ["dflt"]           # dflt last
+            if i % 7 == 4 and langs:
+                langs = [l for l in langs if l != "dflt"]                      # only named languages
+            langs = list(dict.fromkeys(langs))
+        excl = i % 6 == 5
+        lookups = []
+        for k, nm in enumerate(names):
+            lb = ast.LookupBlock(nm)
+            lb.statements.append(ast.SinglePosStatement([(ast.GlyphName("a"), ast.ValueRecord(xAdvance=10 + k))], [], [], False))
+            lookups.append(lb)
+        feat = ast.FeatureBlock("kern")
+        case = {"lookups": names, "script": script, "languages": langs, "exclude_dflt": excl}
+        ctx.count(); ctx.klass("addLookupReferences: script=%s exclude=%s" % (bool(script), excl))
+        if script and langs and langs[0] != "dflt":
+            ctx.nontriv(("lr", i, ctx.scale))
+        try:
+            addLookupReferences(feat, lookups, script, langs, excl)
+        except Exception as e:
+            ctx.spec_failure(case, "addLookupReferences raised %s: %s" % (type(e).__name__, e))
+            continue
+        obs = []
+        for st in feat.statements:
+            if isinstance(st, ast.ScriptStatement):
+                obs.append("(SScript %s)" % G.s(st.script))
+            elif isinstance(st, ast.LanguageStatement):
+                obs.append("(SLang %s %s)" % (G.s(st.language), G.b(st.include_default)))
+            elif isinstance(st, ast.LookupReferenceStatement):
+                obs.append("(SLookup %s)" % G.s(st.lookup.name))
+            else:
+                obs.append("(SLookup %s)" % G.s("?" + type(st).__name__))
+        # feaLib's own reading of these statements
+        compiled = None
+        if script:
+            try:
+                ff = ast.FeatureFile()
+                ff.statements.append(ast.LanguageSystemStatement("DFLT", "dflt"))
+                ff.statements.extend(lookups)
+                ff.statements.append(feat)
+                tt = TTFont(); tt.setGlyphOrder([".notdef", "a"])
+                addOpenTypeFeatures(tt, ff, tables=["GPOS"])
+                t = tt["GPOS"].table
+                fl = t.FeatureList.FeatureRecord
+                compiled = {}
+                for sr in t.ScriptList.ScriptRecord:
+                    if sr.ScriptTag != script:
+                        continue
+                    lss = [("dflt", sr.Script.DefaultLangSys)] if sr.Script.DefaultLangSys else []
+                    lss += [(lr.LangSysTag, lr.LangSys) for lr in sr.Script.LangSysRecord]
+                    for tag, ls in lss:
+                        idx = []
+                        for fi in ls.FeatureIndex:
+                            idx += list(fl[fi].Feature.LookupListIndex)
+                        compiled[tag] = [names[k] for k in idx]
+            except Exception as e:
+                ctx.spec_failure(case, "feaLib could not compile the generated statements: %s: %s" % (type(e).__name__, e))
+                continue
+        g_comp = "(@None (list (str * list str)))" if compiled is None else "(Some %s)" % G.lst(
+            [G.tup(G.s(k), G.lst([G.s(x) for x in v], "str")) for k, v in sorted(compiled.items())], "(str * list str)")
+        cases.append(G.tup(G.tup(G.lst([G.s(n) for n in names], "str"), "(@None str)" if script is None else "(Some %s)" % G.s(script)),
+                           G.tup(G.lst([G.s(l) for l in (langs or [])], "str"), G.b(excl)),
+                           G.tup(G.lst(obs, "fstmt"), g_comp)))
+        meta.append(dict(case, statements=[st.asFea() for st in feat.statements], compiled=compiled))
+    vals = ctx.coq_eval(
+        "From U2F Require Import Base.Prelude Fea.LookupRefs.",
+        "fun c : ((list str * option str) * (list str * bool) * (list fstmt * option (list (str * list str)))) => "
+        "let '((lk, sc), (lg, ex), (obs, comp)) := c in "
+        "let stmt_eqb := fun a b => match a, b with SScript x, SScript y => str_eqb x y | SLang x i, SLang y j => str_eqb x y && Bool.eqb i j "
+        "| SLookup x, SLookup y => str_eqb x y | _, _ => false end in "
+        "let m := read obs in "
+        "(fun (a b : bool) => ((if a then 1 else 0) + (if b then 2 else 0))%Z) (list_eqb stmt_eqb (add_lookup_references lk sc lg ex) obs) "
+        "(match comp with None => true | Some cm => "
+        "forallb (fun kv => list_eqb str_eqb (ls_lookups m (fst kv)) (snd kv)) cm && "
+        "forallb (fun kv => existsb (fun kv2 => str_eqb (fst kv) (fst kv2)) cm || match snd kv with [] => true | _ => false end) m end)",
+        cases, chunk=100, tag="LookupRefs")
+    for v, case in zip(vals, meta):
+        if v is None:
+            continue
+        if not v & 1:
+            ctx.corr_mismatch(case, "Gallina add_lookup_references differs from the statements addLookupReferences appended")
+        if not v & 2:
+            ctx.corr_mismatch(case, "Gallina `read` of the statements (language system -> lookups) differs from what feaLib compiled from them")
+
+
 def cross_script_section(ctx):
     """kerning pairs BETWEEN scripts, linking three to five declared left-to-right scripts into chains (some scripts kerned only
     across scripts): every script of a pair's glyphs must reach, from its default language system, a generated kern lookup that
@@ -177,6 +280,7 @@ def cross_script_section(ctx):
 
 
 def explore(ctx):
+    lookup_refs_section(ctx)
     cross_script_section(ctx)
     import ufo2ft
     from fontTools.ttLib import TTFont
